@@ -461,6 +461,54 @@ where
         },
     );
 }
+/// operands whose components differ by many orders of magnitude (one component of u, of v, or of both scaled by 2^k for
+/// every k up to the type's room): a summation that treats a dominant term differently, a pre-scaling, a threshold on
+/// a ratio of products all have their seam somewhere on this ladder
+fn lopsided<D: Dom>(rep: &mut Report)
+where
+    Vector1<D>: MaybeNeg,
+    Vector2<D>: MaybeNeg,
+    Vector3<D>: MaybeNeg,
+    Vector4<D>: MaybeNeg,
+{
+    // exponents: every second one up to 40 (floats, exact tier); what the integer type can hold otherwise
+    let kmax = if D::INTEGER { (1..=62).rev().find(|k| D::from_r((((1i128 << k) - 1) as i64, 1)).is_some()).unwrap() as i64 / 2 - 4 } else { 40 };
+    let ks: Vec<i64> = (1..=kmax.max(1)).step_by(if D::INTEGER { 1 } else { 2 }).collect();
+    let dims = [2usize, 4, 3, ks.len()];
+    rep.cases(
+        "lopsided",
+        D::NAME,
+        &format!("2 generic pairs (u, v) x component j of {{u, v, both}} scaled by 2^k, k in {:?}: every operation of Vector1-4, cross, perp_dot", ks),
+        alphabet::product_len(&dims),
+        Guard::states(10).distinct(10),
+        |i, ctx| {
+            let d = alphabet::decode(i, &dims);
+            let (j, which, k) = (d[1], d[2], ks[d[3]]);
+            let mut r = base::<D>(8, d[0]);
+            let f = 1i64 << k;
+            if which != 1 { r[j] = (r[j].0 * f, r[j].1); }
+            if which != 0 { r[4 + j] = (r[4 + j].0 * f, r[4 + j].1); }
+            let u: [D; 4] = vec_from_r(&r[..4]);
+            let v: [D; 4] = vec_from_r(&r[4..]);
+            ctx.describe(|| format!("u={:?} v={:?} (component {j} of {} scaled by 2^{k})", u, v, ["u", "v", "both"][which]));
+            let s: D = rq((2, 1));
+            ops::<D, Vector1<D>, 1>(ctx, [u[0]], [v[0]], s);
+            ops::<D, Vector2<D>, 2>(ctx, [u[0], u[1]], [v[0], v[1]], s);
+            ops::<D, Vector3<D>, 3>(ctx, [u[0], u[1], u[2]], [v[0], v[1], v[2]], s);
+            ops::<D, Vector4<D>, 4>(ctx, u, v, s);
+            let (a3, b3): ([D; 3], [D; 3]) = ([u[0], u[1], u[2]], [v[0], v[1], v[2]]);
+            let mc = model::cross(lift_v(a3), lift_v(b3));
+            if mc.iter().all(|m| D::representable(*m)) && (D::SIGNED) {
+                cmp::<D, 3>(ctx, "cross/lopsided", v3(mk_v3(a3).cross(mk_v3(b3))), mc);
+            }
+            let (ma, mb) = (lift_v([u[0], u[1]]), lift_v([v[0], v[1]]));
+            let mp = ma[0] * mb[1] - ma[1] * mb[0];
+            if D::representable(mp) && D::SIGNED {
+                cmp_s::<D>(ctx, "perp_dot/lopsided", mk_v2([u[0], u[1]]).perp_dot(mk_v2([v[0], v[1]])), mp);
+            }
+        },
+    );
+}
 fn all<D: Dom>(rep: &mut Report)
 where
     Vector1<D>: MaybeNeg,
@@ -479,6 +527,7 @@ where
     cross3::<D>(rep);
     perp2::<D>(rep);
     units::<D>(rep);
+    lopsided::<D>(rep);
 }
 
 fn main() {
